@@ -2,6 +2,7 @@ import json, os, time
 import vlib
 
 ASSUME = [
+    'a second store of the same process (production runs raftlog and irclog side by side) holds entries at the same indexes; after every operation on the store under test it takes one unrelated write and must still hold all of them',
     'robust.MessageOffset is the default of the binary (4648398125000000000), so that a raft index and the message id derived from it differ',
     'every sequence is executed twice: once with all accessors compared after every operation, once with the accessors called only after the last operation (an accessor that leaves state behind -- a cached index -- must not be kept consistent by the observer)',
     'the bulk iterator (a RobustIRC-specific accessor, not part of raft.LogStore) is compared on the log entries it yields; stable-store keys that a range spanning 0x7374... yields on a store that also holds stable keys are skipped: the repository only bulk-iterates the IRC log copy, which holds none',
@@ -46,7 +47,7 @@ def _merge(viols):
 def run(tier):
     t0 = time.time()
     binary = _build()
-    budget = float(os.environ.get('VERIF_BUDGET_S', '100' if tier == 'quick' else '1150'))
+    budget = float(os.environ.get('VERIF_BUDGET_S', '240' if tier == 'quick' else '1800'))
     deadline = str(int(t0 + budget))
     sdepth = int(os.environ.get('VERIF_C09_SEQ_DEPTH', SEQ_DEPTH[tier]))
     cdepth = int(os.environ.get('VERIF_C09_CRASH_DEPTH', CRASH_DEPTH[tier]))
@@ -68,7 +69,7 @@ def run(tier):
     phases = {}
     for name, rr in runs:
         phases[name] = {k: sum(int(r.get(k, 0) or 0) for r in rr) for k in (
-            'sequences', 'sequences_reexecuted_with_reads_only_at_the_end', 'operations', 'reads_compared', 'crash_images', 'journal_cuts', 'cuts_op_absent', 'cuts_op_present',
+            'sequences', 'sequences_reexecuted_with_reads_only_at_the_end', 'second_store_checks', 'operations', 'reads_compared', 'crash_images', 'journal_cuts', 'cuts_op_absent', 'cuts_op_present',
             'journal_cut_skipped', 'prefixes_pruned_after_violation', 'skipped_protobuf_to_json')}
         phases[name]['alphabet'] = rr[0].get('alphabet')
         phases[name]['exhaustive'] = all(r.get('exhaustive', True) for r in rr)
